@@ -238,6 +238,16 @@ def checkPoll (m : M) (timeout : Int) : Except String Unit := do
 def pollIntr (m : M) (timeout : Int) (adv : Nat) : M :=
   { m with clock := m.clock + adv, intr := true, looked := true, stop := if timeout ≠ 0 then some 0 else m.stop }
 
+/-! "A ready socket wins over an expired timer" needs more than the latest poll's answer: the monitor learns about
+readiness from poll answers only, and so does the loop.  A callback may make a registered descriptor ready (it writes to
+a socket pair, a peer answers meanwhile), so a timer callback is in order only if the loop has looked at the registered
+descriptors after the previous callback of this call: `looked` is false when the call starts and after every callback,
+true once a poll has come back (answered — ready set or nothing —, or cut short by a signal whose handler requested an
+interrupt: for a waiting poll that stops dispatching anyway, for the non-blocking one the pass may finish, see
+`pollIntr`; a plain EINTR is not a look, the poll is issued again).  With no socket registration there is nothing to look
+at.  A loop that remembers "the last poll found nothing and nothing was registered since" and goes from one expired timer
+straight to the next is rejected: `timer N run without a look at the registered descriptors since the previous callback`. -/
+
 def step (m : M) : Ev → Except String M
   | .op (.regImm id p) .ok => pure { dropId m id with imms := (dropId m id).imms ++ [⟨id, p⟩] }
   | .op (.cancelImm id) .ok => pure (dropId m id)
